@@ -25,6 +25,8 @@ def gen_ops(rng, proto, nops, with_timeout):
             req = (req[0], req[1], rng.randrange(1, 10))
         if req[0] == "RWMR":
             req = (req[0], req[1], rng.randrange(1, 6), req[3], req[4])
+        if rng.random() < 0.08:
+            req = rng.choice([("WMR", rng.randrange(65536), []), ("WMC", rng.randrange(65536), [])])   # empty multi-writes
         typed = req[0] not in ("CU", "RSI") and rng.random() < 0.6
         tid = ncall & 0xFFFF
         fc = mb.req_fc(req)
